@@ -269,7 +269,9 @@ def infgrow_case(case):
             v["key"] = v["key"] + "/" + name
     if ok:
         err = max(float(np.max(np.abs(Y[k] - prob.y(T[k])))) for k in range(len(T)))
-        if err > 2e-3:
+        # fixed step 0.1 over 4.85 time units: the fourth-and-higher-order methods stay within 2e-3 of the exact solution, the second-order
+        # midpoint rule within 3e-2 (its own global error is 8e-3 there); a row that does not belong to the run is off by the amplitude
+        if err > (3e-2 if name == "MidpointSolver" else 2e-3):
             k = int(np.argmax([float(np.max(np.abs(Y[k] - prob.y(T[k])))) for k in range(len(T))]))
             r.v("C09/infinite-trajectory/%s" % name, "the trajectory up to the event remains valid", dict(case, row=k), observed=dict(t=float(T[k]), err=err), expected="on the exact solution")
         got = sorted(float(st.t) * d for st in a.events)
